@@ -47,6 +47,7 @@ pub struct Swarm {
     pub nonexportable: bool,
     pub legal_faults: bool,
     pub long_names: bool,
+    pub unit_as: bool,
 }
 
 const NAME_STEMS: &[&str] = &[
@@ -329,8 +330,9 @@ pub fn draw_universe(rng: &mut Rng, sw: &Swarm, n_syn: usize) -> Universe {
         if !sw.escapes {
             hs.retain(|h| !(corpus::L0_..=corpus::L4_).contains(h));
         }
-        if !sw.blank_docs {
-            // D2 stays usable (it is alone in its file), nothing to remove
+        if !sw.unit_as {
+            // `as` on a unit variant (known finding F7) only when the run opts in
+            hs.retain(|h| *h != corpus::W3_);
         }
         rng.shuffle(&mut hs);
         let k = rng.range(2, 8).min(hs.len());
@@ -381,9 +383,11 @@ fn draw_swarm(rng: &mut Rng) -> Swarm {
         nonexportable: rng.pct(40),
         legal_faults: rng.pct(50),
         long_names: false,
+        unit_as: false,
     };
     // drawn last so that adding the switch did not shift earlier draws
     sw.long_names = rng.pct(10);
+    sw.unit_as = rng.pct(3);
     if !sw.der && !sw.syn {
         sw.syn = true;
     }
